@@ -6,4 +6,8 @@ META = {
   text='Machine-checked proof (Coq): for every history of membership changes, handler creation/cancellation and any number of concurrent or cancelled NextPeerEvent calls under every fine-grained schedule, the replay of returned events equals the topic membership once drained, per-peer events alternate starting with Join, and no wake-up token is lost (a parked call can always progress when events are pending). The model is tied to the code by running the real Topic/TopicEventHandler under synctest on exhaustive short and random long histories and validating every observation (returns, blocked calls, log, token, membership) against the model inside Coq, together with the property monitor on the observed data.',
   note='Trusted: Coq kernel+vm_compute; hand-written model Model/EventLog.v; the Go harness and schedule reconstruction (a search over model schedules, every step through the proven step function); Go mutex/channel semantics as modelled. One handler per model instance.',
   technique='Coq invariant proof over all schedules + differential correspondence (vm_compute) with real code under synctest'),
+ 'C20': dict(
+  text='Machine-checked proof (Coq): for every multiset of validations per author, every arrival order and every interleaving of the validator\'s two phases (shared-lock read+compare, exclusive re-read+compare+store), the accepted sequence numbers of an author are strictly increasing in acceptance order, the stored nonce equals the highest accepted value and never decreases, a message is accepted only strictly above the nonce at its commit point, replays and wrong-length encodings are ignored and change nothing; 2^64-1 is handled (unbounded N, decode < 2^64). Tied to the code by driving the real BasicSeqnoValidator with a metadata store that parks inside Get/Put so the harness chooses the phase interleaving (all interleavings for small thread counts, random ones for more), and evaluating model + monitor on every recorded schedule in Coq.',
+  note='Trusted: Coq kernel+vm_compute; hand-written model Model/SeqnoVal.v; the Go harness (parking store; real goroutines with short real-time settling because sync.RWMutex waits are not durable blocks under synctest); RWMutex semantics (exclusive section atomic). The "ignored => neither delivered, forwarded nor penalised" part is C04\'s.',
+  technique='Coq invariant proof over all phase interleavings + differential correspondence with forced schedules'),
 }
